@@ -22,9 +22,19 @@ REVIEWED = {
 }
 
 
+# library calls that raise on malformed text, and the handlers that contain each (frozen table; D-int generalised)
+_VE = {"ValueError", "Exception", "BaseException"}
+RAISING = {"int": _VE, "float": _VE, "codecs.lookup": {"LookupError", "Exception", "BaseException"},
+           "codecs.getdecoder": {"LookupError", "Exception", "BaseException"}, "codecs.getencoder": {"LookupError", "Exception", "BaseException"},
+           "codecs.getincrementaldecoder": {"LookupError", "Exception", "BaseException"},
+           "base64.b64decode": _VE | {"Error"}, "binascii.unhexlify": _VE | {"Error"}, "bytes.fromhex": _VE, "bytearray.fromhex": _VE,
+           "time.strptime": _VE, "datetime.strptime": _VE, "ipaddress.ip_address": _VE}
+RAISING_ATTR = {"parsedate_to_datetime": _VE | {"TypeError"}}
+
+
 def check(ctx):
     ctx.rule("T10-http", "every explicit raise in the parse call graph is an HTTPException subclass (reviewed exceptions frozen)")
-    ctx.rule("D-int", "int() of received text only inside a try that handles ValueError")
+    ctx.rule("D-int", "int()/float()/codecs.lookup()/.. (frozen table of library calls that raise on malformed text) of received text only inside a try that handles their exception")
     ctx.rule("D-unpack", "no unguarded fixed-arity unpack of str.split")
     ctx.rule("T1-contain", "parseMessage / serviceReqs / serviceResponse contain HTTPException per connection")
     repo = ctx.repo
@@ -60,15 +70,25 @@ def check(ctx):
     for q, f in scope.items():
         if "/aio/http/" not in q:
             continue
-        for c in [x for x in walk_no_nested(f) if isinstance(x, ast.Call) and call_name(x) == "int" and x.args and not isinstance(x.args[0], ast.Constant)]:
+        for c in [x for x in walk_no_nested(f) if isinstance(x, ast.Call) and x.args and not isinstance(x.args[0], ast.Constant)]:
+            cn_ = call_name(c) or ""
+            key = cn_ if cn_ in RAISING else ".".join(cn_.split(".")[-2:]) if ".".join(cn_.split(".")[-2:]) in RAISING else \
+                cn_.split(".")[-1] if ("." in cn_ and cn_.split(".")[-1] in RAISING_ATTR) else None
+            if key is None:
+                continue
+            accepted = RAISING.get(key) or RAISING_ATTR[key]
             p = parent(c)
             ok = False
             while p is not None and p is not f:
-                if isinstance(p, ast.Try) and any(c in list(ast.walk(s)) for s in p.body) and \
-                        any(h.type is None or dotted(h.type) in ("ValueError", "Exception") for h in p.handlers):
-                    ok = True
+                if isinstance(p, ast.Try) and any(c in list(ast.walk(s)) for s in p.body):
+                    for h in p.handlers:
+                        names = [None] if h.type is None else [dotted(e) for e in (h.type.elts if isinstance(h.type, ast.Tuple) else [h.type])]
+                        if any(n is None or (n or "").split(".")[-1] in accepted for n in names):
+                            ok = True
                 p = parent(p)
-            ctx.check(ok, "D-int", c, "%s: %s" % (q.split(":")[1], src(c)), "int() of received text outside a ValueError handler raises ValueError on malformed input")
+            ctx.check(ok, "D-int", c, "%s: %s" % (q.split(":")[1], src(c)[:80]),
+                      "%s of received text outside a handler for %s raises it on malformed input: that is not an HTTPException and "
+                      "it escapes the service loop" % (key, "/".join(sorted(accepted - {"Exception", "BaseException"}))))
     _http.fixed_arity_unpacks(ctx, "D-unpack", {q: f for q, f in scope.items() if "/aio/http/" in q})
     ctx.rule("D-decode", "received bytes are decoded with a total codec or inside a handler for the decode error")
     nd = _http.decode_discipline(ctx, "D-decode", scope)
